@@ -812,6 +812,49 @@ theorem construct_identity {s s1 s2 : St} {c c' : Nat} {cy cy' : Bool} {a a' : L
 theorem no_stale {s : St} (h : Inv s) {k : CKey} {i : Id} (hl : lookup s.cache k = some i) :
     ∃ o, (i, o) ∈ s.objs ∧ (o.cls, o.key) = k ∧ mkKey o.args = some o.key := lookup_sound h hl
 
+/-- `TensorMeta.__call__` normalises `inputs` (None / dict -> tuple) and converts a NumPy *scalar*
+    (`np.generic`, hashable) to a fresh 0-d array — the only conversion of `data` that allocates, and
+    it applies to scalars only: an `ndarray` argument reaches the key as the object that was passed. -/
+theorem tensor_meta_source_form_modelled :
+    FV.Gen.C07.tensorMetaCallForm =
+      "if inputs is None: inputs = tuple() elif isinstance(inputs, dict): inputs = tuple(inputs.items()) ;; if isinstance(data, np.generic): data = data.__array__() ;; return super(TensorMeta, cls).__call__(data, inputs, dtype)" := by
+  rfl
+
+/-- The model's `TensorMeta` normalisation never touches the array token. -/
+theorem tensor_norm_keeps_array (a : Id) (inputs dtype : List ArgTok) :
+    (∃ i', normArgs "TensorMeta" [[.arr a], inputs, dtype] = some [[.arr a], i', dtype]) ∧
+    (∃ i', normArgs "TensorMeta" [[.arr a], inputs] = some [[.arr a], i', [.str "real"]]) ∧
+    normArgs "TensorMeta" [[.arr a]] = some [[.arr a], [.lp, .rp], [.str "real"]] := by
+  refine ⟨⟨_, rfl⟩, ⟨_, rfl⟩, rfl⟩
+
+/-- The key of a term whose first argument is an array determines that array's address. -/
+theorem arr_key_inj {a b : Id} {rest : List ArgTok} {k : List Tok}
+    (h1 : mkKey (.arr a :: rest) = some k) (h2 : mkKey (.arr b :: rest) = some k) : a = b := by
+  simp only [mkKey, mkKeyAux] at h1 h2
+  cases hr : mkKeyAux rest 0 Option.none with
+  | none => simp [hr] at h1
+  | some r =>
+    simp only [hr, Option.map_some, Option.some.injEq] at h1 h2
+    rw [← h2] at h1
+    simp only [List.cons.injEq, Tok.num.injEq, and_true] at h1
+    exact Int.ofNat_inj.mp h1
+
+/-- **Witness for allocating normalisation**: if a constructor wrapper replaces the array passed by
+    a copy (a different address) before the key is built, two calls with the *same* argument give
+    two different live objects — `same args ⇒ same object` needs the array to reach the key as is. -/
+theorem copying_normaliser_breaks_identity {s s1 s2 : St} {c : Nat} {cy cy' : Bool}
+    {rest : List ArgTok} {a b n n' r1 r2 : Id} (h : Inv s)
+    (h1 : construct s c cy (.arr a :: rest) n = .ok (s1, r1))
+    (h2 : construct s1 c cy' (.arr b :: rest) n' = .ok (s2, r2)) (hab : a ≠ b) : r1 ≠ r2 := by
+  intro e
+  have hk := ((construct_same_iff h h1 h2).mp e).2
+  obtain ⟨k1, _, hk1, _⟩ := construct_cases h1
+  obtain ⟨k2, _, hk2, _⟩ := construct_cases h2
+  rw [hk1, hk2] at hk
+  have : k1 = k2 := Option.some.inj hk
+  subst this
+  exact hab (arr_key_inj hk1 hk2)
+
 /-! ### weakly held -/
 
 /-- Freeing an object removes its table entry with it: no later lookup can return it. -/
